@@ -326,6 +326,45 @@ def _forms(repo, col):
         ok = ok or (own and at_centres)
     col.add(R, fi, "branch b is evaluated with its own radius function at the centres", "DISCHARGED" if ok else ("VIOLATED" if calls_ else "UNDECIDED"),
             "radius_fns[b](centres) for b in branch_indices" if ok else f"the radius functions are applied as {det}", node=fi.node)
+    # ---- the dummy root of a multi-furcation at the first traced point: constant radius, whatever the locations
+    pf = repo.func(CU, "_padded_radius")
+    exp_ = idx.expander(repo, pf)
+    rt = exp_.returns[0] if len(exp_.returns) == 1 else None
+    if rt is None or len(pf.params) != 2:
+        col.unk(R, pf, "_padded_radius(loc, radiuses) is the radius at every location", "return value not found", node=pf.node)
+    else:
+        LOC, RAD = pf.params
+        LIKE = {"ones_like", "zeros_like", "full_like", "empty_like", "broadcast_to", "shape", "full", "ones", "zeros"}
+        shape_src, value_src = set(), set()
+
+        def walk_(t_, in_shape):
+            if t_.op == "param":
+                (shape_src if in_shape else value_src).add(t_.name)
+                return
+            if t_.op in ("mcall", "call") and t_.name in LIKE:
+                a_ = [x for x in t_.args if x.op != "free"]
+                if t_.name == "full_like" and len(a_) >= 2:
+                    walk_(a_[0], True)
+                    walk_(a_[1], False)
+                    return
+                if t_.name == "broadcast_to" and len(a_) >= 2:
+                    walk_(a_[0], False)
+                    walk_(a_[1], True)
+                    return
+                for x in a_:
+                    walk_(x, True)
+                return
+            if t_.op == "attr" and t_.name == "shape":
+                walk_(t_.args[0], True)
+                return
+            for x in list(t_.args) + list(t_.kw.values()):
+                walk_(x, in_shape)
+        walk_(rt, False)
+        ok = value_src == {RAD} and shape_src == {LOC}
+        col.add(R, pf, "_padded_radius(loc, radiuses) is the given radius at every location", "DISCHARGED" if ok else ("VIOLATED" if (value_src and shape_src) else "UNDECIDED"),
+                "radiuses, in the shape of loc" if ok else
+                f"returns {rt.short(60)}: the VALUE comes from {sorted(value_src)} and the SHAPE from {sorted(shape_src)}; the dummy root section that is prepended when "
+                f"several sections leave the first traced point must have the radius of that point at all of its compartments, not the compartment locations", node=pf.node)
     # ---- path lengths (on normal forms: helpers inlined, conditionals lifted; operand order free)
     _pathlengths(repo, col)
     # ---- zero length, per-compartment length
@@ -337,6 +376,23 @@ def _forms(repo, col):
     zero_guard = lambda s_: any(g.op == "cmp" and g.name in ("==", "<=") and any(a_.op == "const" and a_.name in (0, 0.0) for a_ in g.args) and
                                T.find(g, lambda y: y.op == "elem") is not None for g in s_.guards)
     zs = [s_ for s_ in zs if zero_guard(s_)]
+    if not zs:
+        # the same convention as a conditional value: `L = sum(d); if L == 0: L = 1.0; lengths.append(L)`  /  `1.0 if L == 0 else L`
+        class _S:   # a store-like record for the report below
+            pass
+        for t_ in [s_.value for s_ in exq.stores if s_.value is not None] + list(exq.returns):
+            for x in t_.walk():
+                if x.op == "ifexp" and x.args[0].op == "cmp" and x.args[0].name in ("==", "<=", "!=", ">") and \
+                        any(a_.op == "const" and a_.name in (0, 0.0) for a_ in x.args[0].args) and \
+                        any(nest(a_, "sum", "each", "_compute_pathlengths") for a_ in x.args[0].args):
+                    when_zero = x.args[1] if x.args[0].name in ("==", "<=") else x.args[2]
+                    other = x.args[2] if x.args[0].name in ("==", "<=") else x.args[1]
+                    if when_zero.op == "const" and nest(other, "sum", "each", "_compute_pathlengths"):
+                        r_ = _S()
+                        r_.value, r_.node = when_zero, x.node or fi.node
+                        zs.append(r_)
+            if zs:
+                break
     col.add(R, fi, "zero-length sections get length 1.0", "DISCHARGED" if any(s_.value.name == 1.0 for s_ in zs) else ("VIOLATED" if zs else "UNDECIDED"),
             "pathlengths[i] = 1.0 where the summed length is 0" if zs and any(s_.value.name == 1.0 for s_ in zs) else
             (f"zero-length sections are given length {zs[0].value.short()}" if zs else "zero-length convention not found"), node=zs[0].node if zs else fi.node)
